@@ -152,4 +152,41 @@ def run {α : Type} (target numColumns : Nat) (pad : Option α)
       | [] => ⟨[], none⟩                               -- `mit.first(tuples, None) is None: return`
       | b :: _ => runFrom target b.length pad (St.init b.length) [] bs
 
+/-! ## Online view
+
+The generator yields the batches of one loop iteration *before* it pulls the next input
+batch.  `feed` is the loop without the final (source-exhausted) iteration: the state reached
+and the batches yielded after pulling exactly the batches `bs`.  `online` is what a consumer
+has received at that point; `pulls` says, for every batch `run` yields, how many `next(tuples)`
+calls the generator had made when it yielded it (observable by wrapping the source). -/
+
+structure Feed (α : Type) where
+  st : St α
+  out : List (Batch α)
+  err : Option ErrKind
+
+def feed {α : Type} (target ncols : Nat) (pad : Option α) : St α → List (Batch α) → Feed α
+  | st, [] => ⟨st, [], none⟩
+  | st, b :: bs =>
+    match step target ncols pad st b with
+    | .ok (st', o) => let f := feed target ncols pad st' bs; ⟨f.st, o ++ f.out, f.err⟩
+    | .error e => ⟨st, [], some e⟩
+
+/-- the column count the generator works with (`num_columns or len(first_batch)`) -/
+def effCols {α : Type} (numColumns : Nat) (bs : List (Batch α)) : Nat :=
+  if numColumns != 0 then numColumns else (bs.headD []).length
+
+/-- batches yielded by `rebatched_args(iter(bs), ...)` up to the moment it asks for the batch after `bs` -/
+def online {α : Type} (target numColumns : Nat) (pad : Option α) (bs : List (Batch α)) :
+    List (Batch α) :=
+  if target == 0 then bs
+  else (feed target (effCols numColumns bs) pad (St.init (effCols numColumns bs)) bs).out
+
+/-- for each yielded batch, the number of `next(tuples)` calls made so far (1-based index of the
+input batch whose iteration yielded it; `len(bs)+1` for the source-exhausted iteration) -/
+def pulls {α : Type} (target numColumns : Nat) (pad : Option α) (bs : List (Batch α)) : List Nat :=
+  let total := (run target numColumns pad bs).out.length
+  let counts := (List.range (bs.length + 1)).map fun k => (online target numColumns pad (bs.take k)).length
+  (List.range total).map fun j => (counts.takeWhile (· ≤ j)).length
+
 end MlModel.Rebatch
